@@ -13,12 +13,12 @@ import (
 
 // Clause is one requires/ensures/invariant/assert-like clause.
 type Clause struct {
-	Kind  string // requires | ensures | invariant | modifies | decreases
-	Label string // stable name used in obligation names and known-findings
-	Text  string // original expression text
-	Go    string // Go expression after rewriting ==>, forall sugar
-	File  string
-	Line  int
+	Kind   string // requires | ensures | invariant | modifies | decreases
+	Label  string // stable name used in obligation names and known-findings
+	Text   string // original expression text
+	Go     string // Go expression after rewriting ==>, forall sugar
+	File   string
+	Line   int
 	RawMod string // modifies item that is not an expression: "heap:NAME" or "type:T.f"
 	// filled after type checking of the generated ghost file
 	fn *ghostFn
@@ -26,23 +26,23 @@ type Clause struct {
 
 // FuncContract holds all clauses attached to one function.
 type FuncContract struct {
-	Key      string // e.g. "(*Obfuscator).obfuscate" or "MakeSession" or "parseExtensions$1"
-	FullKey  string // with package path: "(*github.com/x/y.Obfuscator).obfuscate"
-	PkgPath  string
-	Requires []*Clause
-	Ensures  []*Clause
-	Modifies []string         // raw items; nil => modifies nothing
+	Key        string // e.g. "(*Obfuscator).obfuscate" or "MakeSession" or "parseExtensions$1"
+	FullKey    string // with package path: "(*github.com/x/y.Obfuscator).obfuscate"
+	PkgPath    string
+	Requires   []*Clause
+	Ensures    []*Clause
+	Modifies   []string // raw items; nil => modifies nothing
 	ModClauses []*Clause
-	PNames   []string
-	RNames   []string
-	AtCalls  []AtCall
-	Preserves []*Clause
-	ModAll   bool             // modifies *
-	Loops    map[int][]*Clause // loop ordinal -> invariants
-	LoopMods map[int][]string  // loop ordinal -> extra havoc hints (unused mostly)
-	Flags    map[string]string // inline, trusted, pure, nopanic, recovers, ...
-	File     string
-	Line     int
+	PNames     []string
+	RNames     []string
+	AtCalls    []AtCall
+	Preserves  []*Clause
+	ModAll     bool              // modifies *
+	Loops      map[int][]*Clause // loop ordinal -> invariants
+	LoopMods   map[int][]string  // loop ordinal -> extra havoc hints (unused mostly)
+	Flags      map[string]string // inline, trusted, pure, nopanic, recovers, ...
+	File       string
+	Line       int
 }
 
 // GhostDecl is a ghost function or lemma function given as Go source.
@@ -79,7 +79,7 @@ type LockInvDecl struct {
 }
 
 type GuardDecl struct {
-	Lock   string // e.g. "Stream.writingM"
+	Lock   string   // e.g. "Stream.writingM"
 	Fields []string // e.g. "Stream.writingFrame"
 }
 
